@@ -406,9 +406,64 @@ class _Fuse(ast.NodeTransformer):
     visit_ListComp = visit_GeneratorExp = visit_SetComp = _comp
 
 
+class _KeysToItems(ast.NodeTransformer):
+    """[.. D[k] .. for k in sorted(D)]   ->   [.. v .. for (k, v) in sorted(D.items())]      (also sorted(D.keys()), D, D.keys())
+    Walking the (sorted) keys of a dict and indexing it is walking its (sorted) items."""
+
+    def _rewrite(self, gen: ast.comprehension, bodies: list) -> bool:
+        if not isinstance(gen.target, ast.Name):
+            return False
+        it = gen.iter
+        srt = False
+        if isinstance(it, ast.Call) and isinstance(it.func, ast.Name) and it.func.id == "sorted" and len(it.args) == 1 and not it.keywords:
+            it, srt = it.args[0], True
+        if isinstance(it, ast.Call) and isinstance(it.func, ast.Attribute) and it.func.attr == "keys" and not it.args:
+            it = it.func.value
+        if isinstance(it, ast.Call) and isinstance(it.func, ast.Name) and it.func.id == "list" and len(it.args) == 1:
+            it = it.args[0]
+        if not isinstance(it, (ast.Name, ast.Attribute)):
+            return False
+        k = gen.target.id
+        d = ast.dump(it)
+        uses = [n for b in bodies for n in ast.walk(b) if isinstance(n, ast.Subscript) and isinstance(n.ctx, ast.Load) and ast.dump(n.value) == d
+                and isinstance(n.slice, ast.Name) and n.slice.id == k]
+        if not uses:
+            return False
+        v = f"_{k}_value"
+
+        class R(ast.NodeTransformer):
+            def visit_Subscript(self, n):
+                if isinstance(n.ctx, ast.Load) and ast.dump(n.value) == d and isinstance(n.slice, ast.Name) and n.slice.id == k:
+                    return ast.copy_location(ast.Name(id=v, ctx=ast.Load()), n)
+                return self.generic_visit(n)
+        for i, b in enumerate(bodies):
+            bodies[i] = R().visit(b)
+        items = ast.Call(func=ast.Attribute(value=it, attr="items", ctx=ast.Load()), args=[], keywords=[])
+        gen.iter = ast.Call(func=ast.Name(id="sorted", ctx=ast.Load()), args=[items], keywords=[]) if srt else items
+        gen.target = ast.Tuple(elts=[ast.Name(id=k, ctx=ast.Store()), ast.Name(id=v, ctx=ast.Store())], ctx=ast.Store())
+        return True
+
+    def _comp(self, n):
+        self.generic_visit(n)
+        if len(n.generators) == 1:
+            g = n.generators[0]
+            bodies = ([n.elt] if hasattr(n, "elt") else [n.key, n.value]) + list(g.ifs)
+            if self._rewrite(g, bodies):
+                if hasattr(n, "elt"):
+                    n.elt = bodies[0]
+                    g.ifs = bodies[1:]
+                else:
+                    n.key, n.value = bodies[0], bodies[1]
+                    g.ifs = bodies[2:]
+        return n
+
+    visit_ListComp = visit_GeneratorExp = visit_SetComp = visit_DictComp = _comp
+
+
 def normalise_loops(fn: ast.FunctionDef) -> ast.FunctionDef:
     new = copy.copy(fn)
     new.body = _rewrite_block(list(fn.body))
     new = _Fuse().visit(copy.deepcopy(new))
+    new = _KeysToItems().visit(new)
     ast.fix_missing_locations(new)
     return new
